@@ -177,7 +177,7 @@ def run(ctx):
                 "stalls). distinct = (population, op, mode, state/key class)")
     ctx.assumptions = ["integrity arguments are well-formed", "FIFOs and device nodes are excluded (opening one blocks any program)"]
     # ---------------- (a) random programs
-    nprog = 40 if ctx.quick else 1200
+    nprog = 200 if ctx.quick else 2500
     for pi in range(nprog):
         prog = c12.gen_program(ctx, rng, rng.randint(10, 40))
         m = modes[pi % len(modes)]
@@ -205,7 +205,7 @@ def run(ctx):
         ctx.rm(base)
     # ---------------- (b) writer option space
     cache = ctx.new_cache()
-    nw = 300 if ctx.quick else 6000
+    nw = 1500 if ctx.quick else 15000
     for i in range(nw):
         mode = modes[i % len(modes)]
         ln = rng.choice([0, 0, 1, 2, 100, 4096, 70000] + ([MIB - 1, MIB, MIB + 1] if i % 25 == 0 else []))
